@@ -248,6 +248,11 @@ func (mgr *GCMgr) gc(bkt *Bucket, startChunkID, endChunkID int, merge bool) {
 	for gc.Src = gc.Begin; gc.Src <= gc.End; gc.Src++ {
 		if gc.CancelFlag {
 			logger.Infof("GC canceled: src %d dst %d", gc.Src, gc.Dst)
+			if dstchunk.rewriting && gc.Src == gc.Dst {
+				// the file to be rewritten in place has not been scanned yet:
+				// keep it whole instead of truncating it at the (zero) write head
+				dstchunk.writingHead = dstchunk.size
+			}
 			return
 		}
 		if bkt.datas.chunks[gc.Src].size <= 0 {
